@@ -15,6 +15,7 @@ package simrt
 import (
 	"fmt"
 	"runtime"
+	"strconv"
 	"sync"
 	"testing/synctest"
 	"time"
@@ -57,30 +58,30 @@ type Step struct {
 
 // Sim is the per-run simulator state.
 type Sim struct {
-	mu      sync.Mutex
-	tasks   [MaxTasks]*Task
-	ntasks  int
-	arrive  chan struct{}
-	Ch      *Choices
-	Seq     uint64
-	tearing bool
-	last    int // last task run (for the default policy)
+	mu       sync.Mutex
+	tasks    [MaxTasks]*Task
+	ntasks   int
+	arrive   chan struct{}
+	Ch       *Choices
+	Seq      uint64
+	tearing  bool
+	last     int // last task run (for the default policy)
 	schedGid uint64
 	stalling int32
-	start   time.Time
+	start    time.Time
 
 	// configuration
-	StallProb  int // per 10000 yields
-	StallMax   time.Duration
-	MaxSteps   uint64
-	TraceOn    bool
-	Trace      []Step
-	TraceHash  uint64
-	ProjHash   uint64 // hash of (task name, site) projection
-	OnIdle     func() bool // called when no task is ready; return true to stop
-	OnStep     func()      // called before each release (invariants)
-	StepHook   func(seq uint64) bool // return true to stop (crash injection)
-	Stats      Stats
+	StallProb int // per 10000 yields
+	StallMax  time.Duration
+	MaxSteps  uint64
+	TraceOn   bool
+	Trace     []Step
+	TraceHash uint64
+	ProjHash  uint64                // hash of (task name, site) projection
+	OnIdle    func() bool           // called when no task is ready; return true to stop
+	OnStep    func()                // called before each release (invariants)
+	StepHook  func(seq uint64) bool // return true to stop (crash injection)
+	Stats     Stats
 
 	// node life-cycle
 	BootDone   bool // set by the driver once the collector serves traffic (race build: boot happens-before steady state)
@@ -332,7 +333,7 @@ func Go(site int, fn func()) {
 		go fn()
 		return
 	}
-	t := s.newTask(fmt.Sprintf("go@%d", site), false)
+	t := s.newTask("go@"+strconv.Itoa(site), false) // no fmt here: its sync.Pool edges are ignored while race sync is disabled
 	raceEnable()
 	s.launch(t, site, fn)
 }
